@@ -45,7 +45,8 @@ CHECKS = {
     text='Decides the structure that makes DIV/TIMA right: rate table (TAC&3 -> bit 9/3/5/7), DIV = bits 8-15, reset on write, '
          'overflow reload + request, the falling-edge firing condition of the +1 step and of a TAC write (from path '
          'conditions), and batching invariance by loop uniformity (remaining count only in guard/decrement, OR-accumulated '
-         'requests, final mask commutes, disabled fast path equivalent), and that the request a TAC write produces is merged into IF by '
+         'requests, final mask commutes, disabled fast path equivalent; a watched level carried from tick to tick is accepted '
+         'when it is proved equal to divider & mask by induction over the iteration paths), and that the request a TAC write produces is merged into IF by '
          'IO::set_byte. Exact counter values for a given history are '
          'runtime arithmetic and are not decided.',
     note=TB + 'u32 cycle counter does not overflow within one batch.',
@@ -58,7 +59,8 @@ CHECKS = {
          'the buffer swap; every mode entry tests its STAT enable and every LY change / LYC write / STAT write compares LY '
          'with LYC; every STAT request is justified by a mode entered or an LY == LYC reached in that very step (no repeats); the '
          'requests of STAT / LYC writes reach IF; the request accumulator keeps earlier requests on every iteration path; STAT '
-         'register composition; uniform 4-clock steps independent of batching.',
+         'register composition; uniform 4-clock steps independent of batching, and mode / line / dots change nowhere but in '
+         'those steps (no shortcut path in front of or behind the catch-up loop).',
     note=TB + 'Delivered clock counts are multiples of 4 (C09.6). Pixel output is C15 (not applicable).',
     ref='DESIGN.md#c14'),
  'C16': dict(
@@ -70,7 +72,8 @@ CHECKS = {
          'source+offset through the bus and writes that byte to 0xfe00+offset; offset <= 0x9f inside the loop by the '
          'paired-counter lemma (offset + remaining invariant, remaining0 = min(0xa0-offset0, clocks/4), saved offset <= '
          '0x9f by field invariant), so only OAM is written; retire exactly at 0xa0, otherwise saved with progress; DMA '
-         'before device tick; no assert in the DMA part can fail.',
+         'before device tick; no assert in the DMA part can fail; the device tick IO::run_clock_cycles is called only from '
+         'MemoryAreas::run_clock_cycles, in both configurations, so no step advances time without advancing the transfer.',
     note=TB + 'Clock counts multiples of 4 (C09.6); 0xfe00-0xfe9f is OAM (C10). Equality with a reference for sources '
          'modified mid-transfer follows on paper from rules 3-5.',
     ref='DESIGN.md#c16'),
@@ -80,7 +83,8 @@ CHECKS = {
          'exactly when a selected group has it pressed and echoes the select bits (per selection combination, per line); '
          'the latch guard holds whenever some line falls while the others change arbitrarily (selection change) or alone '
          '(button press) and not when no line can have fallen - decided with get_value as the real function of the state before / '
-         'after the operation, bit-precisely; read-and-clear once per tick; routing. The full 256x4x20 '
+         'after the operation, bit-precisely; read-and-clear once per tick; routing (offset 0 and only it: every write path '
+         'hands the written byte to set_value, every read path returns get_value). The full 256x4x20 '
          'transition relation itself is runtime data.',
     note=TB,
     ref='DESIGN.md#c17'),
@@ -101,7 +105,9 @@ CHECKS = {
          'split_whitespace -> trim -> to_lowercase; the disassembler advances cursor and address by the length of the '
          'decode call whose slice starts at the cursor (a relation between two consecutive iterations: decode#2 gets '
          'input[start#1 + length#1 ..], address#2 = address#1 + length#1, the slice runs to the end, exit only when nothing is '
-         'left - cursor or remaining-slice style alike), and its 4-byte buffer covers the maximum decoder length. Numeric parsing correctness rests on the std contracts of from_str_radix / parse::<u16> '
+         'left - cursor or remaining-slice style alike), and its 4-byte buffer covers the maximum decoder length; for each of '
+         'the 511 encodings decode() completes on a slice that ends exactly at the end of the instruction (it reads only '
+         'the bytes it claims). Numeric parsing correctness rests on the std contracts of from_str_radix / parse::<u16> '
          '(necessary-condition rule).',
     note=TB + 'Disassembly precondition from the property: the input ends on an instruction boundary.',
     ref='DESIGN.md#c20'),
@@ -192,7 +198,9 @@ CHECKS = {
          '(mod 2^16) equal to the interpreter for every operand, perform the same byte accesses through the embedded helper '
          'addresses, keep the host stack balanced and never branch on an undefined value; rule C01.11: every slice the '
          'translator hands to decode() is at least as long as the longest instruction; rule C01.12: entry trampoline, block '
-         'exit and exit trampoline load/store every Registers field, return R14 and restore callee-saved registers.',
+         'exit and exit trampoline load/store every Registers field, return R14 and restore callee-saved registers; rule '
+         'C01.13: both engines cut a block at the same instruction (same terminators, same region ends - a fixed-bank '
+         'block never runs on into the switchable bank).',
     note=TB + 'Template effect table in gbsa/emitmodel.py (fails closed on unknown templates). gbsa/x86.py (decoder + '
          'transfer functions for the instruction subset the emitter uses; SDM semantics and the sysv64 ABI are trusted; '
          'anything outside the subset is ANALYSIS-ERROR). PC is compared modulo 2^16.' + VL,
